@@ -111,3 +111,76 @@ class ExecOutcome(FunctionContract):
 def units():
     return [FunctionUnit(ExecOutcome(m)) for m in
             ("exec_SwitchPhase", "exec_FailStep", "exec_Raise", "exec_Nop", "exec_YieldState")]
+
+
+# ---- NumpyInterpreter.set_up --------------------------------------------------------------------------------------------
+class VCtxDict(V):
+    ty = None
+
+    def __init__(self):
+        self.d = {}
+
+    def setitem(self, it, idx, v, node):
+        self.d[getattr(it.ctx.deref(idx), "py", "?")] = getattr(it.ctx.deref(v), "py", "?")
+        return NONE
+
+
+class VUserCtx(V):
+    ty = None
+
+    def __init__(self, items):
+        self.items = items
+
+
+class SetUpInterp(FunctionContract):
+    """set_up(t_start, dt_start, context): <t>, <dt> and every given component under <state>+its name; a name that starts
+    with '<' is refused and nothing after it is stored"""
+    prop = "C01"
+    relpath = REL
+    qualname = "NumpyInterpreter.set_up"
+    raises = {"ValueError": lambda st: [("only-for-a-component-name-starting-with-<", z3.BoolVal(True))]}
+
+    def __init__(self, keys):
+        self.keys = keys
+        self.variant_name = "context=" + "/".join(keys)
+
+    def params(self, ctx):
+        self.cd = VCtxDict()
+        ctx.env["self"] = VObj(TObj("NumpyInterpreter", {}), {"context": self.cd})
+        ctx.env["t_start"] = VPy("t_start")
+        ctx.env["dt_start"] = VPy("dt_start")
+        ctx.env["context"] = VUserCtx([(k, "value-of-" + k) for k in self.keys])
+
+    def getattr_hook(self, ctx, it, obj, name):
+        o = ctx.deref(obj)
+        if isinstance(o, VUserCtx) and name == "items":
+            return VFunc("items", lambda ctx, it, a, k: VTuple([VTuple([VPy(n), VPy(v)]) for n, v in o.items]))
+        if isinstance(o, VPy) and isinstance(o.py, str) and name == "startswith":
+            return VFunc(name, lambda ctx, it, a, k: VBool(o.py.startswith(ctx.deref(a[0]).py)))
+        return None
+
+    def binop_hook(self, ctx, it, op_, a, b):
+        import ast as pyast
+        if op_ is pyast.Add and isinstance(a, VPy) and isinstance(b, VPy):
+            return VPy(str(a.py) + str(b.py))
+        return None
+
+    def exit_obligations(self, ctx, st, kind, value):
+        bad = [k for k in self.keys if k.startswith("<")]
+        want = {"<t>": "t_start", "<dt>": "dt_start"}
+        for k in self.keys:
+            if k.startswith("<"):
+                break
+            want["<state>" + k] = "value-of-" + k
+        if kind == "return":
+            return [("no-refused-name-is-accepted", z3.BoolVal(not bad)),
+                    ("time-step-size-and-every-component-under-<state>+name", z3.BoolVal(self.cd.d == want))]
+        return [("raises-ValueError-exactly-when-a-name-starts-with-<", z3.BoolVal(bool(bad) and value.cls == "ValueError")),
+                ("what-was-stored-before-is-as-written", z3.BoolVal(self.cd.d == want))]
+
+
+_old_units = units
+
+
+def units():
+    return _old_units() + [FunctionUnit(SetUpInterp(["y", "z"])), FunctionUnit(SetUpInterp([])), FunctionUnit(SetUpInterp(["y", "<bad"]))]
